@@ -2307,12 +2307,20 @@ class Head(Expr):
     def _simplify_down(self):
         if isinstance(self.frame, Elemwise):
             operands = [
-                Head(op, self.n, self.npartitions) if isinstance(op, Expr) else op
+                (
+                    Head(op, self.n, self.operand("npartitions"))
+                    if isinstance(op, Expr) and not self.frame._broadcast_dep(op)
+                    else op
+                )
                 for op in self.frame.operands
             ]
             return type(self.frame)(*operands)
         if isinstance(self.frame, Head):
-            return Head(self.frame.frame, min(self.n, self.frame.n), self.npartitions)
+            return Head(
+                self.frame.frame,
+                min(self.n, self.frame.n),
+                self.frame.operand("npartitions"),
+            )
 
     def _simplify_up(self, parent, dependents):
         from dask_expr import Repartition
@@ -2412,7 +2420,11 @@ class Tail(Expr):
     def _simplify_down(self):
         if isinstance(self.frame, Elemwise):
             operands = [
-                Tail(op, self.n) if isinstance(op, Expr) else op
+                (
+                    Tail(op, self.n)
+                    if isinstance(op, Expr) and not self.frame._broadcast_dep(op)
+                    else op
+                )
                 for op in self.frame.operands
             ]
             return type(self.frame)(*operands)
